@@ -105,6 +105,13 @@ def check_trim(db, chk, rule: str) -> None:
         chk.ob(rule, f"{tag} kept device rows = device-side rows inner-joined on the correlation ids of the KEPT host rows", okj, where2,
                found=[how, T.show(lk), T._ctx(Rc)[:160]], accepted="inner join on correlation with the kept host rows",
                why="a left join keeps every activity; joining on all host rows keeps the trailing step's activities")
+        # the device side is cut by the kept launch calls ALONE: no time condition of its own (the GPU runs asynchronously)
+        dconj = list(Lc[1][1]) if Lc[1][0] == "and" else [Lc[1]]
+        timed = [c_ for c_ in dconj if any(T.col(TR, x_) in T.find(c_, lambda s_: s_[0] == "col") for x_ in ("ts", "dur", "end"))]
+        chk.ob(rule, f"{tag} device rows are selected by their launch call alone (no time cut on the device side)", not timed, where2, found=[T.show(c_)[:160] for c_ in timed] or "none", accepted="no ts/dur/end condition on the device part",
+               why="an activity that starts after the cut-off while its launch call is kept would vanish and leave the call with a link to a missing row")
+        if timed:
+            Lc = (Lc[0], T.and_(*[c_ for c_ in dconj if c_ not in timed]), Lc[2])
         try:
             grid = [(sv_, cv_, nv_) for sv_ in (-1, 0, 7) for cv_ in (-1, 0, 9) for nv_ in (5, 1001, 1002)]
             both = [g for g in grid if bool(T.evaluate(T.and_(*side), leaf(g))) == bool(T.evaluate(Lc[1], leaf(g)))]
